@@ -185,6 +185,10 @@ def _worker(job):
         for k, v in job.opts.items():
             if k.startswith('ex.'):
                 setattr(ex, k[3:], v)
+        xs = None
+        if job.opts.get('xcheck'):
+            from gosym.xcheck import XSampler
+            xs = ex.solver.xs = ex.solver.lia.xs = XSampler()
         if job.opts.get('float_contract'):
             ses.use_float_contract()
         if job.opts.get('monitor_alloc'):
@@ -287,6 +291,8 @@ def _worker(job):
         res['obligations'] = getattr(ses, 'obligations', 0)
         res['events'] = sorted('%s: %s' % k for k in ex.events)
         res['funcs'] = sorted(getattr(ex, 'entered', ()))
+        if xs is not None:
+            res['xcheck'] = xs.run()
     except (TimeoutError, MemoryError) as e:
         res['ok'] = False
         res['error'] = 'bound not completed: %s' % e
@@ -464,6 +470,11 @@ class Check:
         self.prog = _PROG
         nproc = nproc or min(16, os.cpu_count() or 4)
         jobs = sorted(self.jobs, key=lambda j: -j.weight)
+        # cross-solver sampling on about 24 jobs spread over the check (engine/gosym/xcheck.py)
+        if os.environ.get('VERIF_XCHECK', '1') != '0':
+            step = max(1, len(jobs) // 24)
+            for j in jobs[::step]:
+                j.opts = dict(j.opts, xcheck=True)
         self.results = _run_pool(jobs, nproc)
         return self.results
 
@@ -611,6 +622,16 @@ class Check:
                 a[0] += v[0]
                 a[1] += v[1]
             funcs.update(r.get('funcs', ()))
+        xc = {'queries': 0, 'agree_cvc5': 0, 'agree_z3_4_8': 0, 'inconclusive_cvc5': 0, 'inconclusive_z3_4_8': 0, 'disagreements': []}
+        for r in self.results:
+            x = r.get('xcheck')
+            if x:
+                for k in xc:
+                    xc[k] += x[k]
+        # the in-process verdict stands unless BOTH independent solvers contradict it
+        self.solver_conflict = [d for d in xc['disagreements'] if all(a is not None and a != d['z3_5'] for a in d['others'].values())]
+        for d in xc['disagreements']:
+            self.notes.append('cross-solver disagreement (%s back end): z3 5.x says %s, others %s' % (d['backend'], d['z3_5'], d['others']))
         vac = [k for k in getattr(self, 'must_reach', []) if not reach.get(k)]
         okc, nval = self.validate_samples() if not self.violations else (0, 0)
         from gosym.driver import run_refvalidate
@@ -642,6 +663,7 @@ class Check:
                      for r in self.results],
             'queries': {'sat': solver['sat'], 'unsat': solver['unsat'], 'unknown': solver['unknown'], 'of_which_integer_encoding': solver.get('lia_queries', 0)},
             'solver_s': round(solver['solver_s'], 3),
+            'cross_solver_sample': {k: (v if k != 'disagreements' else v[:10]) for k, v in xc.items()},
             'ssa_instructions_executed': stats.get('instrs', 0),
             'state_merges': stats.get('merges', 0),
             'assertions': {k: {'path_classes_holding': v[0], 'candidates': v[1]} for k, v in sorted(asserts.items())},
@@ -678,6 +700,9 @@ class Check:
             cov['queries']['sat'] + cov['queries']['unsat'] + cov['queries']['unknown'], cov['solver_s'], wall, len(self.violations)))
         if self.violations:
             return 1
+        if getattr(self, 'solver_conflict', None):
+            print('tool error (no verdict): cvc5 and z3 4.8 both contradict the deciding solver on %d sampled queries' % len(self.solver_conflict))
+            return 2
         if getattr(self, 'replay_broken', False):
             print('tool error (no verdict): the native replay could not be built/run: %s' % _short(self.notes[-1] if self.notes else '', 500))
             return 2
